@@ -49,12 +49,14 @@ impl Prop for C02 {
             if n % 60 == 0 {
                 db = FrontCfg::default_cfg().new_db(Plugins::Default);
             }
-            let case = execs::pick_case(ch, &snippets, 5, 6);
             let cfg = if ch.bool() { FrontCfg::default_cfg() } else { FrontCfg::generate(ch) };
-            let meta = if case.source.len() < 2500 && ch.chance(1, 3) { MetaCfg { linear_gas: false, linear_ap: false } } else { MetaCfg::linear() };
+            let solver_choice = ch.below(6);
+            let sweep_seed: Vec<u32> = (0..40).map(|_| ch.next()).collect();
+            let case = execs::pick_case(ch, &snippets, 5, 6);
+            let meta = if case.source.len() < 2500 && solver_choice % 3 == 0 { MetaCfg { linear_gas: false, linear_ap: false } } else { MetaCfg::linear() };
             let src_hash = hash_str(&case.source);
             let mut sampled = false;
-            let v = execs::drive(cc, ch, &mut db, &case, &cfg, meta, 3, &mut |cc, _c, f, args, gas, r| {
+            let v = execs::drive(cc, &mut Choices::new(sweep_seed.clone()), &mut db, &case, &cfg, meta, 3, &mut |cc, _c, f, args, gas, r| {
                 match r {
                     Ok(e) => {
                         let st = cc.stats();
